@@ -187,6 +187,9 @@ fn outcome(r: Result<Value, RepeError>) -> String {
     }
 }
 
+/// set per case: a WebSocket client on which nobody subscribed to notifications (`sub=0`)
+static NO_SUB: std::sync::atomic::AtomicBool = std::sync::atomic::AtomicBool::new(false);
+
 struct Setup { cl: Cl, srv: Server, sub: Option<tokio::sync::mpsc::UnboundedReceiver<repe::Message>> }
 
 fn setup(kind: &str) -> Result<Setup, String> {
@@ -215,8 +218,8 @@ fn setup(kind: &str) -> Result<Setup, String> {
                 let ws = tokio::time::timeout(WAIT, acc).await.map_err(|_| "accept timeout".to_string())?.map_err(|e| e.to_string())??;
                 Ok::<_, String>((cl, ws))
             })?;
-            let sub = cl.subscribe_notifies().map_err(|_| "already subscribed".to_string())?;
-            Ok(Setup { cl: Cl::Ws(cl), srv: Server { conn: Conn::Ws(Box::new(ws)), seen: HashMap::new(), ids: vec![], notifies: vec![], err: None }, sub: Some(sub) })
+            let sub = if NO_SUB.load(std::sync::atomic::Ordering::SeqCst) { None } else { Some(cl.subscribe_notifies().map_err(|_| "already subscribed".to_string())?) };
+            Ok(Setup { cl: Cl::Ws(cl), srv: Server { conn: Conn::Ws(Box::new(ws)), seen: HashMap::new(), ids: vec![], notifies: vec![], err: None }, sub })
         }
     }
 }
@@ -447,6 +450,7 @@ fn run_case(line: &str) -> String {
     let f = fields(line);
     let kind = f["k"].clone(); let mode = f["mode"].clone(); let n = hx(&f["n"]);
     let sched: Vec<Step> = if f["sched"] == "-" { vec![] } else { f["sched"].split(';').map(parse_step).collect() };
+    NO_SUB.store(f.get("sub").map(|v| v == "0").unwrap_or(false), std::sync::atomic::Ordering::SeqCst);
     guard(std::panic::AssertUnwindSafe(|| run_inner(&kind, &mode, n, &sched))).unwrap_or_else(|_| "crash=panic".into())
 }
 
@@ -689,6 +693,9 @@ fn gen_cases(seed: u64, thorough: bool) -> Vec<String> {
             for p in permutations(n) {
                 cases.push(render(kind, "par", n as u64, &script(&mut rng, kind == "ws", n as u64, &p, false)));
                 cases.push(render(kind, "par", n as u64, &script(&mut rng, kind == "ws", n as u64, &p, true)));
+                // the same on a WebSocket client nobody subscribed on: injected notifications (some
+                // reuse an in-flight id) are dropped, never handed to a caller
+                if kind == "ws" && n <= 3 { cases.push(format!("{} sub=0", render(kind, "par", n as u64, &script(&mut rng, true, n as u64, &p, true)))); }
             }
         }
     }
@@ -700,7 +707,8 @@ fn gen_cases(seed: u64, thorough: bool) -> Vec<String> {
             let mut order: Vec<u64> = (0..n).collect(); shuffle(&mut rng, &mut order);
             if rng.chance(1, 4) { let keep = rng.range(0, n - 1) as usize; order.truncate(keep); }
             let inject = rng.chance(1, 2);
-            cases.push(render(kind, "par", n, &script(&mut rng, kind == "ws", n, &order, inject)));
+            let line = render(kind, "par", n, &script(&mut rng, kind == "ws", n, &order, inject));
+            cases.push(if kind == "ws" && inject && i % 3 == 0 { format!("{line} sub=0") } else { line });
         }
     }
     // batch_json of 1..40 requests answered in shuffled order
